@@ -751,3 +751,142 @@ Proof.
   destruct (overflow (add req id amt)); [left; eauto|].
   apply IH. destruct Hin as [Hin|Hin]; [inversion Hin; congruence|eauto].
 Qed.
+
+(* ------------------------------------------------------------ send / burn never panics
+   when the wallet's total holding of every rune fits u128 (supply of a rune <= u128::MAX) *)
+
+Definition sum_all (inv : list wout) (id : N) : N :=
+  fold_right (fun w acc => get (w_runes w) id + acc) 0 inv.
+
+Definition sum_cands (cands : list (nat * sheet)) (id : N) : N :=
+  fold_right (fun os acc => get (snd os) id + acc) 0 cands.
+
+Lemma sum_cands_le : forall inv k id, sum_cands (candidates k inv) id <= sum_all inv id.
+Proof.
+  unfold sum_cands, sum_all.
+  induction inv as [|w r IH]; intros k id; cbn [candidates fold_right]; [lia|].
+  specialize (IH (S k) id).
+  destruct (w_runes w) as [|x xs] eqn:Hw; [cbn [get]; lia|].
+  destruct (w_inscribed w); [lia|].
+  cbn [fold_right snd]. lia.
+Qed.
+
+Lemma entry_get : forall (s : sheet) k v, uniq s -> In (k, v) s -> get s k = v.
+Proof.
+  induction s as [|[k0 v0] r IH]; intros k v Hu Hin; [destruct Hin|].
+  unfold uniq in Hu. cbn [keys map fst] in Hu. inversion Hu as [|? ? Hn Hr]; subst.
+  cbn [get]. destruct Hin as [Hin|Hin].
+  - inversion Hin; subst. rewrite N.eqb_refl. reflexivity.
+  - destruct (N.eqb_spec k0 k) as [->|]; [|exact (IH k v Hr Hin)].
+    exfalso. apply Hn. change k with (fst (k, v)). apply in_map. exact Hin.
+Qed.
+
+Lemma no_overflow : forall s, uniq s -> (forall id, get s id < P128) -> overflow s = false.
+Proof.
+  intros s Hu Hb. unfold overflow.
+  destruct (existsb (fun kv => P128 <=? snd kv) s) eqn:E; [|reflexivity].
+  apply existsb_exists in E. destruct E as [[k v] [Hin Hv]]. cbn [snd] in Hv.
+  rewrite <- (entry_get s k v Hu Hin) in Hv. specialize (Hb k).
+  destruct (N.leb_spec P128 (get s k)); [lia|discriminate].
+Qed.
+
+Lemma select_send_no_panic : forall cands r a inputs bal p,
+  (forall o s, In (o, s) cands -> uniq s) -> uniq bal ->
+  (forall id, get bal id + sum_cands cands id < P128) ->
+  select_send cands r a inputs bal <> Panic p.
+Proof.
+  induction cands as [|[o s] rest IH]; intros r a inputs bal p Hc Hu Hb; cbn [select_send]; [discriminate|].
+  assert (Hrest : forall o' s', In (o', s') rest -> uniq s') by (intros o' s' Hin; apply (Hc o' s'); right; exact Hin).
+  assert (Hsu : uniq s) by (apply (Hc o s); left; reflexivity).
+  assert (Hb' : forall id, get (merge bal s) id + sum_cands rest id < P128).
+  { intros id. rewrite get_merge by exact Hsu. specialize (Hb id).
+    cbn [sum_cands fold_right snd] in Hb. fold (sum_cands rest id) in Hb. lia. }
+  destruct (0 <? get s r).
+  - rewrite no_overflow; [|apply uniq_merge; exact Hu|intros id; specialize (Hb' id); lia].
+    destruct (a <=? get (merge bal s) r); [discriminate|].
+    apply IH; [exact Hrest|apply uniq_merge; exact Hu|exact Hb'].
+  - apply IH; [exact Hrest|exact Hu|].
+    intros id. specialize (Hb id). cbn [sum_cands fold_right snd] in Hb. fold (sum_cands rest id) in Hb. lia.
+Qed.
+
+Theorem send_no_panic : forall inv r a is_send fc p,
+  valid_inv inv -> (forall id, sum_all inv id < P128) ->
+  build_send inv r a is_send fc <> Panic p.
+Proof.
+  intros inv r a is_send fc p Hv Hb. unfold build_send.
+  destruct (a =? 0); [discriminate|].
+  destruct (select_send (candidates 0 inv) r a [] []) as [[inputs bal]|e|q] eqn:Hsel; cbn [bind].
+  - destruct (get bal r <? a); discriminate.
+  - discriminate.
+  - exfalso. revert Hsel. apply select_send_no_panic.
+    + intros o s Hin. exact (proj2 (candidates_ok inv Hv o s Hin)).
+    + exact uniq_nil.
+    + intros id. cbn [get]. pose proof (sum_cands_le inv 0 id). specialize (Hb id). lia.
+Qed.
+
+(* ------------------------------------------------------------ split never panics when the
+   wallet's holdings and the split file's total request of every rune fit u128 *)
+
+Lemma required_runes_no_panic : forall rs req p,
+  uniq req -> (forall id, get req id + total rs id < P128) -> required_runes rs req <> Panic p.
+Proof.
+  induction rs as [|[id amt] rs IH]; intros req p Hu Hb; cbn [required_runes]; [discriminate|].
+  destruct (amt =? 0); [discriminate|].
+  assert (Hb' : forall id', get (add req id amt) id' + total rs id' < P128).
+  { intros id'. rewrite get_add. specialize (Hb id'). unfold total in *. cbn [fold_right fst snd] in Hb. lia. }
+  rewrite no_overflow; [|apply uniq_add; exact Hu|intros id'; specialize (Hb' id'); lia].
+  apply IH; [apply uniq_add; exact Hu|exact Hb'].
+Qed.
+
+Lemma required_of_no_panic : forall outs req p,
+  uniq req -> (forall id, get req id + need_total outs id < P128) -> required_of outs req <> Panic p.
+Proof.
+  induction outs as [|o r IH]; intros req p Hu Hb; cbn [required_of]; [discriminate|].
+  assert (Hb1 : forall id, get req id + total (s_runes o) id < P128).
+  { intros id. specialize (Hb id). unfold need_total in Hb. cbn [fold_right] in Hb. lia. }
+  destruct (required_runes (s_runes o) req) as [req1|e|q] eqn:H1; cbn [bind].
+  - destruct (required_runes_ok _ _ _ H1) as [A1 [_ A3]].
+    apply IH; [exact (A3 Hu)|].
+    intros id. rewrite A1. specialize (Hb id). unfold need_total in *. cbn [fold_right] in Hb. lia.
+  - discriminate.
+  - exfalso. exact (required_runes_no_panic _ _ q Hu Hb1 H1).
+Qed.
+
+Lemma select_split_no_panic : forall cands req inputs bal p,
+  (forall o s, In (o, s) cands -> uniq s) -> uniq bal ->
+  (forall id, get bal id + sum_cands cands id < P128) ->
+  select_split cands req inputs bal <> Panic p.
+Proof.
+  induction cands as [|[o s] rest IH]; intros req inputs bal p Hc Hu Hb; cbn [select_split]; [discriminate|].
+  assert (Hrest : forall o' s', In (o', s') rest -> uniq s') by (intros o' s' Hin; apply (Hc o' s'); right; exact Hin).
+  assert (Hsu : uniq s) by (apply (Hc o s); left; reflexivity).
+  assert (Hb' : forall id, get (merge bal s) id + sum_cands rest id < P128).
+  { intros id. rewrite get_merge by exact Hsu. specialize (Hb id).
+    unfold sum_cands in *. cbn [fold_right snd] in Hb. lia. }
+  destruct (wants req bal s).
+  - rewrite no_overflow; [|apply uniq_merge; exact Hu|intros id; specialize (Hb' id); lia].
+    apply IH; [exact Hrest|apply uniq_merge; exact Hu|exact Hb'].
+  - apply IH; [exact Hrest|exact Hu|].
+    intros id. specialize (Hb id). unfold sum_cands in *. cbn [fold_right snd] in Hb. lia.
+Qed.
+
+Theorem split_no_panic : forall inv outs postage cd oversize fc p,
+  valid_inv inv -> (forall id, sum_all inv id < P128) -> (forall id, need_total outs id < P128) ->
+  build_split inv outs postage cd oversize fc <> Panic p.
+Proof.
+  intros inv outs postage cd oversize fc p Hv Hb Hn. unfold build_split.
+  destruct outs as [|o0 outs']; [discriminate|]. cbv beta iota.
+  destruct (postage <? cd); [discriminate|].
+  destruct (required_of (o0 :: outs') []) as [req|e|q] eqn:Hreq; cbn [bind].
+  - destruct (select_split (candidates 0 inv) req [] []) as [[inputs bal]|e|q] eqn:Hsel; cbn [bind].
+    + destruct (existsb _ req); [discriminate|]. destruct oversize; [discriminate|].
+      destruct (existsb _ (o0 :: outs')); discriminate.
+    + discriminate.
+    + exfalso. revert Hsel. apply select_split_no_panic.
+      * intros o s Hin. exact (proj2 (candidates_ok inv Hv o s Hin)).
+      * exact uniq_nil.
+      * intros id. cbn [get]. pose proof (sum_cands_le inv 0 id). specialize (Hb id). lia.
+  - discriminate.
+  - exfalso. revert Hreq. apply required_of_no_panic; [exact uniq_nil|].
+    intros id. cbn [get]. specialize (Hn id). lia.
+Qed.
